@@ -50,8 +50,11 @@ Definition used_fragments (fs : list fragment) (sels : list sel) : option (list 
   bfs fs (S (List.length (universe fs roots))) s q.
 
 (* ---- preprocess ---- *)
+(* a selection that puts __typename under the response key "__typename" (the key the generated
+   unmarshaler dispatches on): the field's ALIAS decides (generate.go; `kind: __typename` does
+   not count) *)
 Definition is_typename_field (s : sel) : bool :=
-  match s with SField _ n _ _ _ _ _ => str_eqb n typename_name | _ => false end.
+  match s with SField a _ _ _ _ _ _ => str_eqb a typename_name | _ => false end.
 Definition has_typename (l : list sel) : bool := existsb is_typename_field l.
 
 Section Pre.
